@@ -1195,6 +1195,16 @@ class RpcServer:
                 raise TypeError(f"Method '{info.name}' must return a Stream, got {type(result).__name__}")
             if info.header_type is not None and result.header is None:
                 raise TypeError(f"Method '{info.name}' declares header type but returned header=None")
+            # Serialise the header inside the init error handling, into a
+            # buffer: a header that cannot be written (a value that does not
+            # fit its Arrow type, a failed externalisation) is an init error
+            # like any other, and nothing may reach the wire before it is known
+            # to be complete.
+            header_bytes = b""
+            if info.header_type is not None:
+                header_buf = BytesIO()
+                _write_stream_header(header_buf, result.header, self._external_config, sink=sink, method_name=info.name)
+                header_bytes = header_buf.getvalue()
         except Exception as exc:
             _hook_exc = exc
             status = "error"
@@ -1234,10 +1244,8 @@ class RpcServer:
         cancelled = False
 
         # Write header IPC stream before the main output stream
-        if info.header_type is not None:
-            _write_stream_header(
-                transport.writer, result.header, self._external_config, sink=sink, method_name=info.name
-            )
+        if header_bytes:
+            transport.writer.write(header_bytes)
 
         input_reader = ValidatedReader(ipc.open_stream(transport.reader), self._ipc_validation)
 
